@@ -5,8 +5,9 @@ from harness import common, hrt
 ASSUME = [
     'reading: the clock callback at the very entry of a tracing function (and in the preamble of a platform-initiated '
     'open/close) runs before the section is entered, with flag 0; no packet byte is touched there',
-    'quick tier samples the flag at callback entry/exit and at API return on the implementation; per-store sampling '
-    '(mprotect + single-step) is the thorough tier; the theorem stores_under_flag covers every store of the model',
+    'the flag is sampled on the implementation at callback entry/exit, at API return, and (watch-mode histories: buffer '
+    'pages read-only, SIGSEGV + single-step) at every store instruction that hits the packet buffer; the theorem '
+    'stores_under_flag covers every store of the model',
     'asynchronous observers are represented by the callback/store instants of a sequential execution',
 ]
 
@@ -28,9 +29,10 @@ def oracle(cs, h, lines):
             for l in cbs:
                 if rt.kv(l).get('f') != '1':
                     fails.append(f'callback on behalf of a tracing call entered with flag 0: {l}')
-            for l in seg:
-                if l.startswith('st ') and rt.kv(l).get('f') != '1':
-                    fails.append(f'store with flag 0: {l}')
+        # store sampling (histories run in watch mode): every store instruction that hits the packet buffer, in any call
+        for l in seg:
+            if l.startswith('st ') and rt.kv(l).get('f') != '1':
+                fails.append(f'store into the packet buffer with the flag at 0, during `{call[0]}`: {l}')
     return fails
 
 
@@ -39,6 +41,27 @@ def run(c):
     c.assumptions += ASSUME
     n, k = (8, 40) if c.tier == 'quick' else (60, 150)
     cases, dis, stats = rt.run_rt(c, oracle, n, k)
+    # per-store sampling on the implementation (mprotect + single-step): the same configurations, further histories
+    # run in watch mode; the flag must read 1 at every store instruction that hits the packet buffer
+    import random
+    rnd = random.Random(c.seed + 1616)
+    ws = {'histories': 0, 'stores_sampled': 0, 'stores_with_flag_0': 0, 'by_call': {}}
+    for cs in cases:
+        hs = [dict(rt.flushing(hrt.gen_history)(rnd, cs.ir, cs.dname, cs.openargs, cs.recs, cs.hdr, cs.sizes), watch=True)
+              for _ in range(12 if c.tier == 'quick' else 40)]
+        for h, lines in zip(hs, hrt.run_impl(cs.exe, cs.ir, cs.dname, hs)):
+            ws['histories'] += 1
+            for seg, call in zip(rt.segments(lines), h['calls']):
+                nst = sum(1 for l in seg if l.startswith('st '))
+                ws['stores_sampled'] += nst
+                ws['by_call'][call[0]] = ws['by_call'].get(call[0], 0) + nst
+            fails = [f for f in oracle(cs, h, lines) if 'store into the packet buffer' in f]
+            if fails:
+                ws['stores_with_flag_0'] += len(fails)
+                if not c.violations:
+                    c.violation({'property': 'C16', 'kind': 'property fails on the implementation', 'failures': fails[:5],
+                                 'config_yaml': cs.text, 'dst': cs.dname, 'history': h, 'impl_log': lines[-40:]})
+    c.coverage['correspondence']['per-store flag sampling on the implementation (watch mode)'] = ws
     rt.decide(c, ob, dis, oracle=oracle, gen_hist=hrt.gen_history)
     if c.tier == 'thorough' and ob['ok']:
         ok, log = c.leanchecker(['BVM.Props.C16'])
